@@ -1,12 +1,13 @@
 #include "gen.hpp"
 #include <algorithm>
+#include <cstring>
 
 using sim::Rng;
 
 std::string gen_name(Rng &rng, const char *prefix, int idx, bool utf8) {
     std::string s = std::string(prefix) + std::to_string(idx);
     if (rng.chance(0.3)) s += "_" + std::string(1, (char)('a' + rng.below(26)));
-    if (utf8 && rng.chance(0.4)) { static const char *u[] = {"\xc3\xa9", "\xce\xb1", "\xe6\x97\xa5", "\xc3\xbc", "\xc5\x81"}; s += u[rng.below(5)]; }
+    if (utf8 && rng.chance(0.4)) { static const char *u[] = {"\xc3\xa9", "\xce\xb1", "\xe6\x97\xa5", "\xc3\xbc", "\xc5\x81", "e\xcc\x81", "u\xcc\x88", "a\xcc\x80"}; s += u[rng.below(8)]; }   // the last three are NOT in NFC (decomposed): the library must normalise them
     if (rng.chance(0.05)) s += std::string(1 + rng.below(40), 'x');
     return s;
 }
@@ -192,7 +193,7 @@ Program gen_program(uint64_t seed, const GenParams &gp, const std::string &profi
         if (gp.invalid_args && gm.safe_mode && np > 1 && (op.kind == OP_DEF_DIM || op.kind == OP_DEF_VAR || op.kind == OP_RENAME_DIM || op.kind == OP_RENAME_VAR || op.kind == OP_PUT_ATT || op.kind == OP_ENDDEF2) && rng.chance(0.2)) {
             // safe mode (C08): one rank disagrees on a name or a value of a collective metadata call
             op.alt_rank = (int)rng.below(np);
-            bool by_name = op.kind == OP_PUT_ATT || op.kind == OP_RENAME_DIM || op.kind == OP_RENAME_VAR || (op.kind != OP_ENDDEF2 && rng.chance(0.5));
+            bool by_name = op.kind == OP_RENAME_DIM || op.kind == OP_RENAME_VAR || (op.kind != OP_ENDDEF2 && rng.chance(0.5));
             if (by_name) op.alt_name = ((op.kind == OP_RENAME_DIM || op.kind == OP_RENAME_VAR) ? op.name2 : op.name) + "_z";
             else op.alt_val = op.kind == OP_DEF_DIM ? op.a[0] + 1 : op.kind == OP_DEF_VAR ? (op.a[0] == NC_INT ? NC_FLOAT : NC_INT) : op.a[1] + 4;
         }
@@ -236,9 +237,10 @@ Program gen_program(uint64_t seed, const GenParams &gp, const std::string &profi
                 int k = (int)rng.range(0, 4);
                 for (int i = 0; i < k; i++) {
                     Op o; o.file = fi; int w = (int)rng.below(5);
-                    if (w == 0) { o.kind = OP_RENAME_DIM; o.dim = (int)rng.below(8); o.name2 = gen_name(rng, "rd", ndim_ctr++, gp.utf8_names); }
-                    else if (w == 1) { o.kind = OP_RENAME_VAR; o.var = (int)rng.below(8); o.name2 = gen_name(rng, "rv", nvar_ctr++, gp.utf8_names); }
-                    else if (w == 2) { o.kind = OP_RENAME_ATT; o.var = rng.chance(0.5) ? -1 : (int)rng.below(8); o.a[0] = rng.below(8); o.name2 = gen_name(rng, "ra", natt_ctr++, gp.utf8_names); }
+                    auto decomposed = [&](const std::string &nmx) { std::string t = nmx; static const struct { const char *c, *d; } tb[] = {{"\xc3\xa9", "e\xcc\x81"}, {"\xc3\xbc", "u\xcc\x88"}, {"\xc3\xa0", "a\xcc\x80"}}; for (auto &x : tb) { size_t pos = t.find(x.c); if (pos != std::string::npos) t.replace(pos, strlen(x.c), x.d); } return t; };
+                    if (w == 0) { o.kind = OP_RENAME_DIM; o.dim = (int)rng.below(8); o.name2 = gen_name(rng, "rd", ndim_ctr++, gp.utf8_names); if (gp.utf8_names && f.dims.size() >= 2 && rng.chance(0.2)) o.name2 = decomposed(f.dims[rng.below(f.dims.size())].name); }
+                    else if (w == 1) { o.kind = OP_RENAME_VAR; o.var = (int)rng.below(8); o.name2 = gen_name(rng, "rv", nvar_ctr++, gp.utf8_names); if (gp.utf8_names && f.vars.size() >= 2 && rng.chance(0.2)) o.name2 = decomposed(f.vars[rng.below(f.vars.size())].name); }
+                    else if (w == 2) { o.kind = OP_RENAME_ATT; o.var = rng.chance(0.5) ? -1 : (int)rng.below(8); o.a[0] = rng.below(8); o.name2 = gen_name(rng, "ra", natt_ctr++, gp.utf8_names); auto &al = (o.var < 0 || f.vars.empty()) ? f.gatts : f.vars[o.var % f.vars.size()].atts; if (gp.utf8_names && al.size() >= 2 && rng.chance(0.3)) o.name2 = decomposed(al[rng.below(al.size())].name); }
                     else if (w == 3) { o.kind = OP_DEL_ATT; o.var = rng.chance(0.5) ? -1 : (int)rng.below(8); o.a[0] = rng.below(8); }
                     else { o.kind = OP_PUT_ATT; o.var = rng.chance(0.5) ? -1 : (int)rng.below(8); o.att = gen_att(rng, f.format); auto &l = (o.var < 0 || f.vars.empty()) ? f.gatts : f.vars[o.var % f.vars.size()].atts; if (l.empty()) continue; o.name = l[rng.below(l.size())].name; }
                     emit(o);
